@@ -128,3 +128,65 @@ Proof.
   rewrite L1, L2. destruct ((n <? 1) || (Z.of_nat (length ns) <? n))%Z eqn:E; [reflexivity|].
   apply kth_order_free; [exact P|]. apply Bool.orb_false_iff in E. lia.
 Qed.
+
+(* ---------- MODE: a most frequent item; LARGE: the n-th largest ---------- *)
+Lemma first_mode_spec all : forall l m, first_mode l all = Some m ->
+  In m l /\ forall x, In x l -> (count_eq x all <= count_eq m all)%nat.
+Proof.
+  induction l as [|x r IH]; intros m H; [discriminate|]. cbn [first_mode] in H.
+  destruct (first_mode r all) as [m'|] eqn:E.
+  - destruct (IH m' eq_refl) as [Hin Hmax]. destruct (count_eq x all <? count_eq m' all)%nat eqn:C; inversion H; subst.
+    + split; [right; exact Hin|]. intros y [<-|Hy]; [apply Nat.ltb_lt in C; lia|apply Hmax, Hy].
+    + split; [left; reflexivity|]. apply Nat.ltb_ge in C. intros y [<-|Hy]; [lia|]. specialize (Hmax y Hy). lia.
+  - inversion H; subst. split; [left; reflexivity|]. intros y [<-|Hy]; [lia|]. destruct r; [contradiction|]. cbn [first_mode] in E.
+    destruct (first_mode r all); [destruct (_ <? _)%nat|]; discriminate.
+Qed.
+Theorem MODE_is_most_frequent args m : numeric_args args -> fn_MODE args = AOk m ->
+  In m (items_of args) /\ forall x, In x (items_of args) -> (count_eq x (items_of args) <= count_eq m (items_of args))%nat.
+Proof.
+  intros H. unfold fn_MODE, with_numbers. rewrite (numbers_of_numeric _ _ _ H). fold (items_of args).
+  destruct (first_mode (items_of args) (items_of args)) as [m'|] eqn:E; [|discriminate]. intros Q. inversion Q; subst.
+  apply first_mode_spec. exact E.
+Qed.
+Definition cnt_ge (v : Q) (l : list num) : nat := length (filter (fun y => negb (q_ltb (num_q y) v)) l).
+Lemma cnt_lt_ge v l : (cnt_lt v l + cnt_ge v l = length l)%nat.
+Proof. unfold cnt_lt, cnt_ge. induction l as [|a l IH]; [reflexivity|]. cbn [filter]. destruct (q_ltb (num_q a) v); cbn [negb length]; lia. Qed.
+(* LARGE(items, n) = r: at least n items are >= r and at least (count - n + 1) items are <= r *)
+Theorem LARGE_is_nth_largest ns n r : large_items ns n = AOk r ->
+  (Z.to_nat n <= cnt_ge (num_q r) ns)%nat /\ (length ns - Z.to_nat n + 1 <= cnt_le (num_q r) ns)%nat /\ (1 <= n <= Z.of_nat (length ns))%Z.
+Proof.
+  unfold large_items. destruct (sort_nums_spec ns) as [P S]. 
+  assert (length (sort_nums ns) = length ns) as L by (symmetry; apply Permutation_length, P).
+  rewrite L. destruct ((n <? 1) || (Z.of_nat (length ns) <? n))%Z eqn:E; [discriminate|]. apply Bool.orb_false_iff in E.
+  intros H. inversion H as [Hr]. clear H.
+  assert (length ns - Z.to_nat n < length (sort_nums ns))%nat as Hk by lia.
+  pose proof (sorted_rank (sort_nums ns) S (length ns - Z.to_nat n) _ (nth_nth_error _ _ (NI 0) Hk)) as [A B].
+  rewrite (cnt_lt_perm _ _ _ (Permutation_sym P)) in A. rewrite (cnt_le_perm _ _ _ (Permutation_sym P)) in B.
+  pose proof (cnt_lt_ge (num_q (nth (length ns - Z.to_nat n) (sort_nums ns) (NI 0))) ns). split; [lia|]. split; [lia|lia].
+Qed.
+Theorem LARGE_on_the_model arr n : fn_LARGE arr n = with_numbers true true [arr] (fun ns => large_items ns n).
+Proof. reflexivity. Qed.
+
+(* ---------- HARMEAN, AVEDEV, SLOPE: the textbook formulas ---------- *)
+Lemma harmonic_scan_pos l : Forall (fun x => 0 < x) l -> harmonic_scan l = Some true.
+Proof.
+  induction 1 as [|x l Hx F IH]; [reflexivity|]. cbn [harmonic_scan].
+  assert ((Qnum x <? 0)%Z = false) as -> by (unfold Qlt in Hx; cbn in Hx; lia).
+  assert ((Qnum x =? 0)%Z = false) as -> by (unfold Qlt in Hx; cbn in Hx; lia). exact IH.
+Qed.
+Theorem HARMEAN_definition args : numeric_args args -> (2 <= length (items_of args))%nat ->
+  Forall (fun n => 0 < num_q n) (items_of args) ->
+  fn_HARMEAN args = AOk (NF (qlen (items_of args) / qsum (map Qinv (qs (items_of args))))).
+Proof.
+  intros H L P. unfold fn_HARMEAN, with_numbers. rewrite (numbers_of_numeric _ _ _ H). fold (items_of args).
+  destruct (items_of args) as [|a [|b r]] eqn:E; try (cbn in L; lia).
+  rewrite harmonic_scan_pos; [reflexivity|]. unfold qs. rewrite Forall_map. exact P.
+Qed.
+Theorem SLOPE_definition ys xs : length ys = length xs -> ys <> [] ->
+  let n := qlen ys in let sx := qsum (qs xs) in let sy := qsum (qs ys) in
+  let sxx := qsum (map (fun x => x * x) (qs xs)) in let sxy := qsum (map (fun p => fst p * snd p) (combine (qs xs) (qs ys))) in
+  fn_SLOPE_lists ys xs = if (Qnum (n * sxx - sx * sx) =? 0)%Z then AErr EDIV0 else AOk (NF ((n * sxy - sx * sy) / (n * sxx - sx * sx))).
+Proof.
+  intros L Hne. unfold fn_SLOPE_lists. rewrite L, Nat.eqb_refl. cbn [negb orb].
+  destruct xs as [|x xs']; [destruct ys; [congruence|discriminate]|]. cbn [length Nat.eqb]. reflexivity.
+Qed.
